@@ -505,7 +505,9 @@ class RemoveAfterMatch(SingleMatch):
         return read[: self.rstart]
 
     def adjacent_base(self) -> str:
-        return self.sequence[self.rstart - 1 : self.rstart]
+        # Upper case because the statistics are kept per upper-case letter
+        # (a read may contain lower-case bases)
+        return self.sequence[self.rstart - 1 : self.rstart].upper()
 
     def removed_sequence_length(self) -> int:
         return len(self.sequence) - self.rstart
